@@ -31,6 +31,7 @@ THEOREMS = [
     'Nb.C03.getitem_eq_index_of_array',
     'Nb.C03.npIndex_lt',
     'Nb.C03.reshape_same_elements',
+    'Nb.C03.reshape_orig_counterexample',
     'Nb.C03.frozen_params',
     'Nb.C03.afni_scaling_per_subbrick',
     'Nb.C03.afni_zero_factor_means_one',
@@ -57,7 +58,7 @@ ASSUMPTIONS = [
 RULE = ('one stream per proxy implementation (NIfTI-1 single/pair, NIfTI-2, Analyze, SPM99, MGH, direct ArrayProxy in C '
         'and F order, AFNI BRIK/HEAD with per-sub-brick factors incl. zero, multi-frame ECAT7 incl. frames stored out of '
         'order, PAR/REC incl. interleaved slices, MINC1 (netCDF) and MINC2 (HDF5) with 0/1/2 scaling dimensions, CIFTI-2 '
-        'reshaped proxy, explicit reshape) x random basic index tuples (ints, slices of any sign incl. out-of-range '
+        'reshaped proxy, explicit reshape() and copy() of F- and C-order proxies) x random basic index tuples (ints, slices of any sign incl. out-of-range '
         'bounds, Ellipsis, newaxis, out-of-range ints) x mmap x keep_file_open x compression x indexed_gzip flag x '
         '{path, open file object at a random position}, an optional earlier read on the same proxy; exhaustive frame-axis '
         'slices for ECAT. Non-trivial = index is not all-full-slices; distinct by (format, build, config, index).')
@@ -926,7 +927,8 @@ def model_line(d):
             return f'C03 rs F F {thr} {isz} {off} 1,1,1,1,{shp(b["shape"])} {shp(b["shape"])} {idx}'
         if op == 'reshape':
             ns = ','.join(map(str, d['newshape']))
-            return f'C03 rs {b.get("order", "F")} F {thr} {isz} {off} {shp(b["shape"])} {ns} {idx}'
+            o = b.get("order", "F")
+            return f'C03 rs {o} {o} {thr} {isz} {off} {shp(b["shape"])} {ns} {idx}'
         return f'C03 px {b.get("order", "F")} {thr} {isz} {off} {shp(b["shape"])} {idx}'
     if fmt == 'afni':
         isz = {'u1': 1, 'i2': 2, 'f4': 4}[b['dt']]
@@ -1039,6 +1041,8 @@ def impl(case):
         warnings.simplefilter('ignore')
         with IGzipFlag(cfg.get('igzip', True)):
             proxy = bt.opener(cfg)
+            if d.get('op') == 'copy':
+                proxy = proxy.copy()
             if d.get('op') == 'reshape':
                 try:
                     proxy = proxy.reshape(tuple(d['newshape']))
@@ -1302,9 +1306,10 @@ def gen_generic(rng, out, nbuilds, nidx):
                     ns = ns[:k] + (-1,) + ns[k + 1:]
                 tgt = tuple(abs(v) for v in ns) if -1 not in ns else None
                 shp2 = tgt or tuple(np.empty(shape).reshape(ns, order='F').shape)
-                if b.get('order', 'F') == 'C':
-                    continue      # reshape of a C-order proxy: see the report (order is not kept)
+                shp2 = tgt or tuple(np.empty(shape).reshape(ns, order=b.get('order', 'F')).shape)
                 out.append(mk_case(b, cfg, rand_index(rng, shp2), 'generic-reshape', op='reshape', newshape=ns, pre=pre))
+            elif rng.random() < 0.1:
+                out.append(mk_case(b, cfg, idx, 'generic-copy', op='copy', pre=pre))
             else:
                 out.append(mk_case(b, cfg, idx, 'generic:' + fmt, pre=pre))
 
